@@ -6,10 +6,46 @@
    time, fmt and Unicode tables, which are not modelled.
    The hypotheses [length < two63] say that a length fits Go's int, which holds of every Go
    slice and string; without them the filter's 64-bit index arithmetic would wrap. *)
+(* ---- second part (statements appended below) ---- *)
+(* Property C18, second part - more built-in data filters against independent references.
+
+   The references (Spec/SpecFilters2.v) are written from the Django documentation and the
+   Python operations it names: sep.join(parts) [py_join], s.split(sep) cutting at the first
+   occurrence again and again [split_rel], s.replace(x, "") scanning from the left without
+   overlap [cut_rel], str.split() on white space [ws_fields], Python truthiness [py_falsy],
+   64-bit addition [int64_add], the i-th decimal digit [digit_from_right], the ASCII alphabets
+   [ascii_upper]/[ascii_lower], line numbering [numbered], and the truncation shapes.
+   Every theorem is about [apply_filter <name>], i.e. it goes through the generated table
+   [filter_impl] (Tie/C18b.v), for inputs of any length.  [x] is the filtered value and [p] the
+   argument; hypotheses such as [to_string (vv x) = Some s] say "x renders as the text s"
+   (strings, numbers, booleans and nil do; lists and maps do not).
+
+   "Well-formed text" is [of_runes rs] with [Forall scalar rs]: the UTF-8 encoding of a list of
+   Unicode scalar values (ASCII text is a special case, [C18b_ascii_is_well_formed]); on such
+   text characters may have 1 to 4 bytes and the theorems speak about characters, not bytes.
+
+   Where pongo2 deliberately or accidentally differs from Django the theorem states pongo2's
+   law and the comment says so:
+     - add: anything that is not number+number is text concatenation ("5"|add:3 = "53");
+     - yesno: a 2-part argument keeps "maybe" for nil (Django maps nil to the "no" text);
+       a 1-part or 4-part argument is an error (Django returns the input);
+     - pluralize: a float is truncated first (1.5 is singular); non-numbers are an error;
+     - get_digit: a position beyond the digits returns the input (Django returns 0); on a
+       negative number the sign position gives the input as well (fix D39; before, 253);
+     - capfirst: a value without characters (nil, a number) gives "" (Django prints the number);
+     - truncatechars: n <= 0 leaves the text alone (Django returns the ellipsis);
+     - wordwrap: wraps after w WORDS, not after w characters;
+     - first/last/make_list/join on ill-formed UTF-8: a bad byte becomes U+FFFD (example);
+     - upper/lower/capfirst on non-ASCII text rest on Go's Unicode tables: not modelled (Unmod);
+     - join of a list with the EMPTY separator prints the Go slice: not modelled (Unmod);
+     - cut: "the result contains no occurrence of x" is FALSE for arguments of two or more
+       bytes (removing occurrences can create new ones: [C18b_cut_can_leave_an_occurrence]);
+       what holds is Python's replace law [cut_rel], and the claim for one-byte arguments. *)
 From PV Require Import Model.Filters Spec.SpecFilters gen.Scalar.
 From PV Require Import Tie.C18.
+From PV Require Import Model.Filters Spec.SpecFilters Spec.SpecFilters2.
+From PV Require Import Tie.C18b.
 Open Scope N_scope.
-
 
 (* slice is Python slicing, on lists of any length ... *)
 Theorem C18_slice_list_is_python :
@@ -131,7 +167,529 @@ Theorem C18_rjust_arithmetic_is_the_code : forall x p w, int_of p = Ok w ->
 Proof. exact e2_rjust_body. Qed.
 Print Assumptions C18_rjust_arithmetic_is_the_code.
 
-Theorem C18_get_digit_guard_is_the_code : forall i l,
-  go_get_digit i l = (((i <=? 0) || (l <? i))%Z, i, l).
+Theorem C18_get_digit_guard_is_the_code : forall i l c,
+  go_get_digit i l c = (((i <=? 0) || (l <? i))%Z, ((c <? 48) || (57 <? c))%Z, i, l, c).
 Proof. exact e2_get_digit. Qed.
 Print Assumptions C18_get_digit_guard_is_the_code.
+
+
+(* ==================== second part ==================== *)
+
+(* ================================================================== *)
+(* join, split                                                         *)
+
+(* join on a list of scalars of any kinds: their texts with the separator between them *)
+Theorem C18b_join_list : forall (x p : value) (l : list val) (strs : list str) (sep : str),
+  vv x = VList l -> to_string (vv p) = Some sep -> sep <> [] -> rendered l strs ->
+  apply_filter n_join x p = Ok (as_value (VStr (py_join sep strs))).
+Proof. exact tie_join_list. Qed.
+Print Assumptions C18b_join_list.
+
+(* join on a string: its characters are the items; with the empty separator the string itself *)
+Theorem C18b_join_string : forall (x p : value) (s sep : str),
+  vv x = VStr s -> to_string (vv p) = Some sep ->
+  apply_filter n_join x p = Ok (as_value (VStr (match sep with [] => s | _ => py_join sep (chars s) end))).
+Proof. exact tie_join_string. Qed.
+Print Assumptions C18b_join_string.
+
+(* join on anything else returns the input *)
+Theorem C18b_join_scalar : forall (x p : value), can_slice (vv x) = false -> apply_filter n_join x p = Ok x.
+Proof. exact tie_join_scalar. Qed.
+Print Assumptions C18b_join_scalar.
+
+(* split with a non-empty separator gives Python's pieces, and joining them gives the text back *)
+Theorem C18b_split_is_python : forall (x p : value) (s sep : str),
+  to_string (vv x) = Some s -> to_string (vv p) = Some sep -> sep <> [] ->
+  exists parts, apply_filter n_split x p = Ok (as_value (VList (map VStr parts))) /\
+                split_rel sep s parts /\ py_join sep parts = s.
+Proof. exact tie_split_python. Qed.
+Print Assumptions C18b_split_is_python.
+
+(* the reference relation has one answer only, so the theorem above pins the pieces down *)
+Theorem C18b_split_reference_is_a_function : forall (sep s : str) (l1 l2 : list str), sep <> [] ->
+  split_rel sep s l1 -> split_rel sep s l2 -> l1 = l2.
+Proof. exact tie_split_rel_fun. Qed.
+Print Assumptions C18b_split_reference_is_a_function.
+
+(* the round trip through both filters: x|split:sep|join:sep is x's text *)
+Theorem C18b_split_then_join : forall (x p : value) (s sep : str),
+  to_string (vv x) = Some s -> to_string (vv p) = Some sep -> sep <> [] ->
+  exists y, apply_filter n_split x p = Ok y /\ apply_filter n_join y p = Ok (as_value (VStr s)).
+Proof. exact tie_split_then_join. Qed.
+Print Assumptions C18b_split_then_join.
+
+(* split with the empty separator (Go's strings.Split; Python refuses): the characters *)
+Theorem C18b_split_empty_separator : forall (x p : value) (rs : list N),
+  to_string (vv x) = Some (of_runes rs) -> Forall scalar rs -> to_string (vv p) = Some [] ->
+  apply_filter n_split x p = Ok (as_value (VList (map VStr (map encode_rune rs)))).
+Proof. exact tie_split_nosep. Qed.
+Print Assumptions C18b_split_empty_separator.
+
+Example C18b_join_example :   (* ["a", 12, True, nil] | join:", "  =  "a, 12, True, " *)
+  apply_filter n_join (as_value (VList [VStr [97]; VInt 12; VBool true; VNil])) (as_value (VStr [44; 32]))
+  = Ok (as_value (VStr [97; 44; 32; 49; 50; 44; 32; 84; 114; 117; 101; 44; 32])).
+Proof. vm_compute. reflexivity. Qed.
+Example C18b_join_instance :  (* the hypotheses of C18b_join_list on that list *)
+  apply_filter n_join (as_value (VList [VStr [97]; VInt 12; VBool true; VNil])) (as_value (VStr [44; 32]))
+  = Ok (as_value (VStr (py_join [44; 32] [[97]; [49; 50]; [84; 114; 117; 101]; []]))).
+Proof.
+  apply (C18b_join_list _ _ [VStr [97]; VInt 12; VBool true; VNil]);
+    [reflexivity | reflexivity | discriminate | repeat constructor].
+Qed.
+Example C18b_join_string_example :   (* "aéb" | join:"-"  =  "a-é-b" *)
+  apply_filter n_join (as_value (VStr [97; 195; 169; 98])) (as_value (VStr [45]))
+  = Ok (as_value (VStr [97; 45; 195; 169; 45; 98])).
+Proof. vm_compute. reflexivity. Qed.
+Example C18b_join_list_empty_separator_example :   (* outside the model: Go prints the slice *)
+  apply_filter n_join (as_value (VList [VStr [97]; VStr [98]])) (as_value (VStr [])) = Unmod.
+Proof. vm_compute. reflexivity. Qed.
+Example C18b_split_example :   (* "a,b,,c" | split:","  =  ["a", "b", "", "c"] *)
+  apply_filter n_split (as_value (VStr [97; 44; 98; 44; 44; 99])) (as_value (VStr [44]))
+  = Ok (as_value (VList [VStr [97]; VStr [98]; VStr []; VStr [99]])).
+Proof. vm_compute. reflexivity. Qed.
+Example C18b_split_leftmost_example :   (* "aaa" | split:"aa"  =  ["", "a"] *)
+  apply_filter n_split (as_value (VStr [97; 97; 97])) (as_value (VStr [97; 97]))
+  = Ok (as_value (VList [VStr []; VStr [97]])).
+Proof. vm_compute. reflexivity. Qed.
+Example C18b_split_chars_example :   (* "aéb" | split:""  =  ["a", "é", "b"] *)
+  apply_filter n_split (as_value (VStr [97; 195; 169; 98])) (as_value (VStr []))
+  = Ok (as_value (VList [VStr [97]; VStr [195; 169]; VStr [98]])).
+Proof. vm_compute. reflexivity. Qed.
+
+(* ================================================================== *)
+(* first, last on strings                                              *)
+
+(* on any string: the first / last character ("" if there is none); a character is what
+   Go's UTF-8 decoder makes of the bytes *)
+Theorem C18b_first_last_string : forall (x p : value) (s : str), vv x = VStr s ->
+  apply_filter n_first x p = Ok (as_value (VStr (hd [] (chars s)))) /\
+  apply_filter n_last x p = Ok (as_value (VStr (last (chars s) []))).
+Proof. exact tie_first_last_string. Qed.
+Print Assumptions C18b_first_last_string.
+
+(* on well-formed text: all the bytes of the first / last character *)
+Theorem C18b_first_multibyte : forall (x p : value) (r : N) (rest : str),
+  vv x = VStr (encode_rune r ++ rest) -> scalar r ->
+  apply_filter n_first x p = Ok (as_value (VStr (encode_rune r))).
+Proof. exact tie_first_wf. Qed.
+Print Assumptions C18b_first_multibyte.
+
+Theorem C18b_last_multibyte : forall (x p : value) (rs : list N) (r : N),
+  vv x = VStr (of_runes rs ++ encode_rune r) -> Forall scalar rs -> scalar r ->
+  apply_filter n_last x p = Ok (as_value (VStr (encode_rune r))).
+Proof. exact tie_last_wf. Qed.
+Print Assumptions C18b_last_multibyte.
+
+(* nothing to take: "" for the empty string, the empty list and everything that is no sequence *)
+Theorem C18b_first_last_empty : forall (x p : value),
+  (val_len (vv x) = 0%Z \/ can_slice (vv x) = false) ->
+  apply_filter n_first x p = Ok (as_value (VStr [])) /\ apply_filter n_last x p = Ok (as_value (VStr [])).
+Proof. exact tie_first_last_empty. Qed.
+Print Assumptions C18b_first_last_empty.
+
+Example C18b_first_example :   (* "éa" | first = "é" (two bytes) *)
+  apply_filter n_first (as_value (VStr [195; 169; 97])) (as_value VNil) = Ok (as_value (VStr [195; 169])).
+Proof. vm_compute. reflexivity. Qed.
+Example C18b_last_instance :   (* C18b_last_multibyte on "a" ++ "é" *)
+  apply_filter n_last (as_value (VStr [97; 195; 169])) (as_value VNil) = Ok (as_value (VStr [195; 169])).
+Proof.
+  apply (C18b_last_multibyte _ _ [97] 233); [reflexivity | repeat constructor | left; reflexivity].
+Qed.
+Example C18b_first_bad_byte_example :   (* an ill-formed first byte becomes U+FFFD *)
+  apply_filter n_first (as_value (VStr [255; 97])) (as_value VNil) = Ok (as_value (VStr [239; 191; 189])).
+Proof. vm_compute. reflexivity. Qed.
+Example C18b_first_of_number_example :
+  apply_filter n_first (as_value (VInt 5)) (as_value VNil) = Ok (as_value (VStr [])).
+Proof. vm_compute. reflexivity. Qed.
+
+(* ================================================================== *)
+(* add                                                                 *)
+
+(* int + int: the sum as a 64-bit machine holds it *)
+Theorem C18b_add_ints : forall (x p : value) (a b : Z), vv x = VInt a -> vv p = VInt b ->
+  apply_filter n_add x p = Ok (as_value (VInt (wrap64 (a + b)))) /\
+  (is_int64 a -> is_int64 b -> apply_filter n_add x p = Ok (as_value (VInt (int64_add a b)))).
+Proof. exact tie_add_ints. Qed.
+Print Assumptions C18b_add_ints.
+
+(* two numbers of which one is a float: the float64 sum *)
+Theorem C18b_add_floats : forall (x p : value) (a b : float),
+  is_number (vv x) = true -> is_number (vv p) = true ->
+  is_float (vv x) || is_float (vv p) = true ->
+  to_float (vv x) = Some a -> to_float (vv p) = Some b ->
+  apply_filter n_add x p = Ok (as_value (VFloat (f_add a b))).
+Proof. exact tie_add_floats. Qed.
+Print Assumptions C18b_add_floats.
+
+(* the model's rule for everything else (string+string, but also string+int, nil+string):
+   the two texts one after the other *)
+Theorem C18b_add_texts : forall (x p : value) (a b : str),
+  is_number (vv x) && is_number (vv p) = false ->
+  to_string (vv x) = Some a -> to_string (vv p) = Some b ->
+  apply_filter n_add x p = Ok (as_value (VStr (a ++ b))).
+Proof. exact tie_add_texts. Qed.
+Print Assumptions C18b_add_texts.
+
+Example C18b_add_wraps_example :   (* MaxInt64 | add:1 = MinInt64 *)
+  apply_filter n_add (as_value (VInt 9223372036854775807)) (as_value (VInt 1))
+  = Ok (as_value (VInt (-9223372036854775808))).
+Proof. vm_compute. reflexivity. Qed.
+Example C18b_add_mixed_example :   (* "5" | add:3 = "53" (Django: 8) *)
+  apply_filter n_add (as_value (VStr [53])) (as_value (VInt 3)) = Ok (as_value (VStr [53; 51])).
+Proof. vm_compute. reflexivity. Qed.
+
+(* ================================================================== *)
+(* default, default_if_none                                            *)
+
+(* a falsy input (nil, false, 0, 0.0, "", [], {}) gives the argument, anything else itself *)
+Theorem C18b_default_falsy : forall x p : value,
+  apply_filter n_default x p = Ok (if py_falsy (vv x) then p else x).
+Proof. exact tie_default_falsy. Qed.
+Print Assumptions C18b_default_falsy.
+
+(* only nil gives the argument *)
+Theorem C18b_default_if_none : forall x p : value,
+  (vv x = VNil -> apply_filter n_default_if_none x p = Ok p) /\
+  (vv x <> VNil -> apply_filter n_default_if_none x p = Ok x).
+Proof. exact tie_default_if_none. Qed.
+Print Assumptions C18b_default_if_none.
+
+Example C18b_default_example :   (* "" | default:"x" = "x"   but   "" | default_if_none:"x" = "" *)
+  apply_filter n_default (as_value (VStr [])) (as_value (VStr [120])) = Ok (as_value (VStr [120])) /\
+  apply_filter n_default_if_none (as_value (VStr [])) (as_value (VStr [120])) = Ok (as_value (VStr [])) /\
+  apply_filter n_default_if_none (as_value VNil) (as_value (VStr [120])) = Ok (as_value (VStr [120])).
+Proof. vm_compute. repeat split. Qed.
+
+(* ================================================================== *)
+(* yesno                                                               *)
+
+(* without argument (or with the empty one): "yes" / "no" / "maybe" for true / false / nil *)
+Theorem C18b_yesno_default : forall (x p : value), to_string (vv p) = Some [] ->
+  apply_filter n_yesno x p = Ok (as_value (VStr (tri_pick (tri_of (vv x)) s_yes s_no s_maybe))).
+Proof. exact tie_yesno_default. Qed.
+Print Assumptions C18b_yesno_default.
+
+(* with a comma-separated argument of any number of comma-free parts: 2 or 3 parts are the
+   custom texts, anything else is refused *)
+Theorem C18b_yesno_parts : forall (x p : value) (parts : list str),
+  to_string (vv p) = Some (py_join [44] parts) -> py_join [44] parts <> [] ->
+  Forall (lacks 44) parts ->
+  apply_filter n_yesno x p = match yesno_ref (vv x) parts with
+                             | Some s => Ok (as_value (VStr s))
+                             | None => Err 5
+                             end.
+Proof. exact tie_yesno_parts. Qed.
+Print Assumptions C18b_yesno_parts.
+
+Example C18b_yesno_example :   (* nil | yesno:"y,n" = "maybe";  false | yesno:"a,b,c" = "b";  true | yesno:"a" fails *)
+  apply_filter n_yesno (as_value VNil) (as_value (VStr [121; 44; 110])) = Ok (as_value (VStr [109; 97; 121; 98; 101])) /\
+  apply_filter n_yesno (as_value (VBool false)) (as_value (VStr [97; 44; 98; 44; 99])) = Ok (as_value (VStr [98])) /\
+  apply_filter n_yesno (as_value (VBool true)) (as_value (VStr [97])) = Err 5 /\
+  apply_filter n_yesno (as_value (VBool true)) (as_value (VStr [97; 44; 98; 44; 99; 44; 100])) = Err 5.
+Proof. vm_compute. repeat split. Qed.
+Example C18b_yesno_instance :   (* C18b_yesno_parts on the parts "a","b","c" *)
+  apply_filter n_yesno (as_value VNil) (as_value (VStr [97; 44; 98; 44; 99])) = Ok (as_value (VStr [99])).
+Proof.
+  apply (C18b_yesno_parts (as_value VNil) _ [[97]; [98]; [99]]); [reflexivity | discriminate |].
+  repeat constructor; intro H; cbn in H; intuition discriminate.
+Qed.
+
+(* ================================================================== *)
+(* pluralize                                                           *)
+
+Theorem C18b_pluralize_parts : forall (x p : value) (n : Z) (parts : list str),
+  is_number (vv x) = true -> to_integer (vv x) = Some n ->
+  vv p = VStr (py_join [44] parts) -> py_join [44] parts <> [] -> Forall (lacks 44) parts ->
+  apply_filter n_pluralize x p = match pluralize_ref n parts with
+                                 | Some s => Ok (as_value (VStr s))
+                                 | None => Err 5
+                                 end.
+Proof. exact tie_pluralize_parts. Qed.
+Print Assumptions C18b_pluralize_parts.
+
+(* no argument (nil, or anything without characters): "" for 1, "s" otherwise *)
+Theorem C18b_pluralize_noarg : forall (x p : value) (n : Z),
+  is_number (vv x) = true -> to_integer (vv x) = Some n -> val_len (vv p) = 0%Z ->
+  apply_filter n_pluralize x p = match pluralize_ref n [] with
+                                 | Some s => Ok (as_value (VStr s))
+                                 | None => Err 5
+                                 end.
+Proof. exact tie_pluralize_noarg. Qed.
+Print Assumptions C18b_pluralize_noarg.
+
+Theorem C18b_pluralize_not_number : forall (x p : value), is_number (vv x) = false ->
+  apply_filter n_pluralize x p = Err 5.
+Proof. exact tie_pluralize_not_number. Qed.
+Print Assumptions C18b_pluralize_not_number.
+
+Example C18b_pluralize_example :
+  (* 1|pluralize = "", 2|pluralize = "s", 2|pluralize:"es" = "es", 1|pluralize:"y,ies" = "y",
+     0|pluralize:"y,ies" = "ies", 0|pluralize:"a,b,c" fails, "2"|pluralize fails *)
+  apply_filter n_pluralize (as_value (VInt 1)) (as_value VNil) = Ok (as_value (VStr [])) /\
+  apply_filter n_pluralize (as_value (VInt 2)) (as_value VNil) = Ok (as_value (VStr [115])) /\
+  apply_filter n_pluralize (as_value (VInt 2)) (as_value (VStr [101; 115])) = Ok (as_value (VStr [101; 115])) /\
+  apply_filter n_pluralize (as_value (VInt 1)) (as_value (VStr [121; 44; 105; 101; 115])) = Ok (as_value (VStr [121])) /\
+  apply_filter n_pluralize (as_value (VInt 0)) (as_value (VStr [121; 44; 105; 101; 115])) = Ok (as_value (VStr [105; 101; 115])) /\
+  apply_filter n_pluralize (as_value (VInt 0)) (as_value (VStr [97; 44; 98; 44; 99])) = Err 5 /\
+  apply_filter n_pluralize (as_value (VStr [50])) (as_value VNil) = Err 5.
+Proof. vm_compute. repeat split. Qed.
+Example C18b_pluralize_float_example :   (* 1.5 | pluralize = "" : the float is truncated to 1 *)
+  apply_filter n_pluralize (as_value (VFloat (f_div (f_of_int 3) (f_of_int 2)))) (as_value VNil)
+  = Ok (as_value (VStr [])).
+Proof. vm_compute. reflexivity. Qed.
+
+(* ================================================================== *)
+(* wordcount, cut                                                      *)
+
+(* the number of white-space separated words of the character list (Go's unicode.IsSpace,
+   multi-byte white space included) *)
+Theorem C18b_wordcount : forall (x p : value) (s : str), to_string (vv x) = Some s ->
+  apply_filter n_wordcount x p
+  = Ok (as_value (VInt (Z.of_nat (length (ws_fields is_space_rune (runes s)))))).
+Proof. exact tie_wordcount. Qed.
+Print Assumptions C18b_wordcount.
+
+Example C18b_wordcount_example :   (* "  hi \tbig<NBSP>w " has 3 words *)
+  apply_filter n_wordcount (as_value (VStr [32; 32; 104; 105; 32; 9; 98; 105; 103; 194; 160; 119; 32])) (as_value VNil)
+  = Ok (as_value (VInt 3)).
+Proof. vm_compute. reflexivity. Qed.
+
+(* cut is Python's s.replace(x, ""): leftmost occurrences, not overlapping, removed *)
+Theorem C18b_cut_is_python_replace : forall (x p : value) (s o : str),
+  to_string (vv x) = Some s -> to_string (vv p) = Some o -> o <> [] ->
+  exists r, apply_filter n_cut x p = Ok (as_value (VStr r)) /\ cut_rel o s r.
+Proof. exact tie_cut_python. Qed.
+Print Assumptions C18b_cut_is_python_replace.
+
+Theorem C18b_cut_reference_is_a_function : forall o s r1 r2, o <> [] ->
+  cut_rel o s r1 -> cut_rel o s r2 -> r1 = r2.
+Proof. exact tie_cut_rel_fun. Qed.
+Print Assumptions C18b_cut_reference_is_a_function.
+
+(* a one-byte argument: exactly the other bytes remain, in order - no occurrence is left *)
+Theorem C18b_cut_one_byte : forall (x p : value) (s : str) (c : N),
+  to_string (vv x) = Some s -> to_string (vv p) = Some [c] ->
+  apply_filter n_cut x p = Ok (as_value (VStr (filter (fun b => negb (b =? c)) s))) /\
+  lacks c (filter (fun b => negb (b =? c)) s).
+Proof. exact tie_cut_one_byte. Qed.
+Print Assumptions C18b_cut_one_byte.
+
+(* nothing to cut (no occurrence, or the empty argument): the text stays *)
+Theorem C18b_cut_nothing : forall (x p : value) (s o : str),
+  to_string (vv x) = Some s -> to_string (vv p) = Some o -> ~ occurs o s \/ o = [] ->
+  apply_filter n_cut x p = Ok (as_value (VStr s)).
+Proof. exact tie_cut_nothing. Qed.
+Print Assumptions C18b_cut_nothing.
+
+Example C18b_cut_example :   (* "aab" | cut:"ab" = "a" *)
+  apply_filter n_cut (as_value (VStr [97; 97; 98])) (as_value (VStr [97; 98])) = Ok (as_value (VStr [97])).
+Proof. vm_compute. reflexivity. Qed.
+(* COUNTEREXAMPLE to "cut s x contains no occurrence of x": "aabb" | cut:"ab" = "ab" *)
+Example C18b_cut_can_leave_an_occurrence :
+  apply_filter n_cut (as_value (VStr [97; 97; 98; 98])) (as_value (VStr [97; 98])) = Ok (as_value (VStr [97; 98])) /\
+  occurs [97; 98] [97; 98].
+Proof. split; [vm_compute; reflexivity | exists [], []; reflexivity]. Qed.
+
+(* ================================================================== *)
+(* upper, lower, capfirst                                              *)
+
+(* on ASCII text every letter goes to the same place of the other alphabet, every other byte
+   stays; text with a byte >= 128 is outside the model *)
+Theorem C18b_upper_ascii : forall (x p : value) (s : str), to_string (vv x) = Some s ->
+  (is_ascii s -> apply_filter n_upper x p = Ok (as_value (VStr (map ascii_upper s)))) /\
+  (~ is_ascii s -> apply_filter n_upper x p = Unmod).
+Proof. exact tie_upper_ascii. Qed.
+Print Assumptions C18b_upper_ascii.
+
+Theorem C18b_lower_ascii : forall (x p : value) (s : str), to_string (vv x) = Some s ->
+  (is_ascii s -> apply_filter n_lower x p = Ok (as_value (VStr (map ascii_lower s)))) /\
+  (~ is_ascii s -> apply_filter n_lower x p = Unmod).
+Proof. exact tie_lower_ascii. Qed.
+Print Assumptions C18b_lower_ascii.
+
+(* capfirst: only the first byte is touched; the rest may be any bytes (also >= 128) *)
+Theorem C18b_capfirst_string : forall (x p : value) (b : N) (rest : str), vv x = VStr (b :: rest) ->
+  (b < 128 -> apply_filter n_capfirst x p = Ok (as_value (VStr (ascii_upper b :: rest)))) /\
+  (128 <= b -> apply_filter n_capfirst x p = Unmod).
+Proof. exact tie_capfirst_string. Qed.
+Print Assumptions C18b_capfirst_string.
+
+Theorem C18b_capfirst_empty : forall (x p : value), val_len (vv x) = 0%Z ->
+  apply_filter n_capfirst x p = Ok (as_value (VStr [])).
+Proof. exact tie_capfirst_empty. Qed.
+Print Assumptions C18b_capfirst_empty.
+
+Example C18b_case_example :   (* "abcX1z"|upper = "ABCX1Z";  "AbZ["|lower = "abz[";  "hié"|capfirst = "Hié";  5|capfirst = "" *)
+  apply_filter n_upper (as_value (VStr [97; 98; 99; 88; 49; 122])) (as_value VNil) = Ok (as_value (VStr [65; 66; 67; 88; 49; 90])) /\
+  apply_filter n_lower (as_value (VStr [65; 98; 90; 91])) (as_value VNil) = Ok (as_value (VStr [97; 98; 122; 91])) /\
+  apply_filter n_capfirst (as_value (VStr [104; 105; 195; 169])) (as_value VNil) = Ok (as_value (VStr [72; 105; 195; 169])) /\
+  apply_filter n_capfirst (as_value (VInt 5)) (as_value VNil) = Ok (as_value (VStr [])) /\
+  apply_filter n_upper (as_value (VStr [97; 195; 169])) (as_value VNil) = Unmod.
+Proof. vm_compute. repeat split. Qed.
+Example C18b_alphabets_example : ascii_upper 97 = 65 /\ ascii_upper 122 = 90 /\ ascii_upper 123 = 123 /\ ascii_lower 90 = 122.
+Proof. vm_compute. repeat split. Qed.
+
+(* ================================================================== *)
+(* make_list, length_is                                                *)
+
+(* the characters of the text of x, each as a string ... *)
+Theorem C18b_make_list_chars : forall (x p : value) (s : str), to_string (vv x) = Some s ->
+  apply_filter n_make_list x p = Ok (as_value (VList (map VStr (chars s)))).
+Proof. exact tie_make_list_chars. Qed.
+Print Assumptions C18b_make_list_chars.
+
+(* ... on well-formed text: one item per character with all its bytes *)
+Theorem C18b_make_list_multibyte : forall (x p : value) (rs : list N),
+  to_string (vv x) = Some (of_runes rs) -> Forall scalar rs ->
+  apply_filter n_make_list x p = Ok (as_value (VList (map VStr (map encode_rune rs)))).
+Proof. exact tie_make_list_wf. Qed.
+Print Assumptions C18b_make_list_multibyte.
+
+(* ... of an integer: its decimal digits (and the sign), one one-byte string each *)
+Theorem C18b_make_list_int : forall (x p : value) (z : Z), vv x = VInt z ->
+  apply_filter n_make_list x p = Ok (as_value (VList (map (fun b => VStr [b]) (itoa z)))).
+Proof. exact tie_make_list_int. Qed.
+Print Assumptions C18b_make_list_int.
+
+(* length_is compares the length (items of a list, characters of a string, 0 otherwise) *)
+Theorem C18b_length_is : forall (x p : value) (n : Z), to_integer (vv p) = Some n ->
+  apply_filter n_length_is x p = Ok (as_value (VBool (val_len (vv x) =? n)%Z)).
+Proof. exact tie_length_is. Qed.
+Print Assumptions C18b_length_is.
+
+Example C18b_make_list_example :   (* 123|make_list = ["1","2","3"];  "aé"|make_list = ["a","é"] *)
+  apply_filter n_make_list (as_value (VInt 123)) (as_value VNil) = Ok (as_value (VList [VStr [49]; VStr [50]; VStr [51]])) /\
+  apply_filter n_make_list (as_value (VStr [97; 195; 169])) (as_value VNil) = Ok (as_value (VList [VStr [97]; VStr [195; 169]])).
+Proof. vm_compute. repeat split. Qed.
+Example C18b_length_is_example :   (* [1,2,3]|length_is:3;  "aé"|length_is:"2" (two characters, three bytes) *)
+  apply_filter n_length_is (as_value (VList [VInt 1; VInt 2; VInt 3])) (as_value (VInt 3)) = Ok (as_value (VBool true)) /\
+  apply_filter n_length_is (as_value (VStr [97; 195; 169])) (as_value (VStr [50])) = Ok (as_value (VBool true)).
+Proof. vm_compute. repeat split. Qed.
+
+(* ================================================================== *)
+(* get_digit                                                           *)
+
+(* on a natural number: the i-th digit from the right when there is one (10^(i-1) <= z, or
+   i = 1), otherwise the input itself *)
+Theorem C18b_get_digit : forall (x p : value) (z i : Z),
+  vv x = VInt z -> to_integer (vv p) = Some i -> (0 <= z)%Z -> is_int64 z -> (1 <= i)%Z ->
+  apply_filter n_get_digit x p = if (i =? 1)%Z || (10 ^ (i - 1) <=? z)%Z
+                                 then Ok (as_value (VInt (digit_from_right z i))) else Ok x.
+Proof. exact tie_get_digit_nat. Qed.
+Print Assumptions C18b_get_digit.
+
+(* a position below 1: the input itself *)
+Theorem C18b_get_digit_nonpositive : forall (x p : value) (s : str) (i : Z),
+  to_string (vv x) = Some s -> to_integer (vv p) = Some i -> (i <= 0)%Z ->
+  apply_filter n_get_digit x p = Ok x.
+Proof. exact tie_get_digit_nonpositive. Qed.
+Print Assumptions C18b_get_digit_nonpositive.
+
+(* a position that holds no digit - a sign, a letter: the input itself (fix D39) *)
+Theorem C18b_get_digit_no_digit : forall (x p : value) (s : str) (i : Z),
+  to_string (vv x) = Some s -> to_integer (vv p) = Some i ->
+  (1 <= i <= Z.of_nat (length s))%Z ->
+  (let c := nth (Z.to_nat (Z.of_nat (length s) - i)) s 0%N in (c <? 48)%N || (57 <? c)%N = true) ->
+  apply_filter n_get_digit x p = Ok x.
+Proof. exact tie_get_digit_no_digit. Qed.
+Print Assumptions C18b_get_digit_no_digit.
+
+Example C18b_get_digit_example :
+  (* 12345|get_digit:2 = 4, :5 = 1, :6 = 12345, :0 = 12345;  -123|get_digit:4 = -123 (the sign is no digit;
+     before fix D39 pongo2 answered 253, the sign byte minus 48) *)
+  apply_filter n_get_digit (as_value (VInt 12345)) (as_value (VInt 2)) = Ok (as_value (VInt 4)) /\
+  apply_filter n_get_digit (as_value (VInt 12345)) (as_value (VInt 5)) = Ok (as_value (VInt 1)) /\
+  apply_filter n_get_digit (as_value (VInt 12345)) (as_value (VInt 6)) = Ok (as_value (VInt 12345)) /\
+  apply_filter n_get_digit (as_value (VInt 12345)) (as_value (VInt 0)) = Ok (as_value (VInt 12345)) /\
+  apply_filter n_get_digit (as_value (VInt (-123))) (as_value (VInt 4)) = Ok (as_value (VInt (-123))).
+Proof. vm_compute. repeat split. Qed.
+
+(* ================================================================== *)
+(* truncatechars, truncatewords                                        *)
+
+(* on well-formed text, for every n: the reference shape, counted in characters *)
+Theorem C18b_truncatechars : forall (x p : value) (rs : list N) (n : Z),
+  to_string (vv x) = Some (of_runes rs) -> Forall scalar rs -> to_integer (vv p) = Some n ->
+  apply_filter n_truncatechars x p = Ok (as_value (VStr (of_runes (truncchars_ref rs n)))).
+Proof. exact tie_truncatechars_wf. Qed.
+Print Assumptions C18b_truncatechars.
+
+(* on any bytes: n <= 0 leaves them alone, otherwise the decoded characters are re-encoded *)
+Theorem C18b_truncatechars_any_text : forall (x p : value) (s : str) (n : Z),
+  to_string (vv x) = Some s -> to_integer (vv p) = Some n ->
+  ((n <= 0)%Z -> apply_filter n_truncatechars x p = Ok (as_value (VStr s))) /\
+  ((0 < n)%Z -> apply_filter n_truncatechars x p
+                = Ok (as_value (VStr (of_runes (truncchars_ref (runes s) n))))).
+Proof. exact tie_truncatechars_all. Qed.
+Print Assumptions C18b_truncatechars_any_text.
+
+(* the first n words joined by one blank, "..." as a further word when words were dropped *)
+Theorem C18b_truncatewords : forall (x p : value) (rs : list N) (n : Z),
+  to_string (vv x) = Some (of_runes rs) -> Forall scalar rs -> to_integer (vv p) = Some n ->
+  apply_filter n_truncatewords x p
+  = Ok (as_value (VStr (py_join [32] (truncwords_ref (map of_runes (ws_fields is_space_rune rs)) n)))).
+Proof. exact tie_truncatewords_wf. Qed.
+Print Assumptions C18b_truncatewords.
+
+Example C18b_truncate_example :
+  (* "hello world"|truncatechars:8 = "hello...";  "héllo"|truncatechars:4 = "h...";  "hello"|truncatechars:2 = "he";
+     "a b  c d"|truncatewords:2 = "a b ...";  "a b"|truncatewords:2 = "a b" *)
+  apply_filter n_truncatechars (as_value (VStr [104; 101; 108; 108; 111; 32; 119; 111; 114; 108; 100])) (as_value (VInt 8))
+    = Ok (as_value (VStr [104; 101; 108; 108; 111; 46; 46; 46])) /\
+  apply_filter n_truncatechars (as_value (VStr [104; 195; 169; 108; 108; 111])) (as_value (VInt 4))
+    = Ok (as_value (VStr [104; 46; 46; 46])) /\
+  apply_filter n_truncatechars (as_value (VStr [104; 101; 108; 108; 111])) (as_value (VInt 2)) = Ok (as_value (VStr [104; 101])) /\
+  apply_filter n_truncatewords (as_value (VStr [97; 32; 98; 32; 32; 99; 32; 100])) (as_value (VInt 2))
+    = Ok (as_value (VStr [97; 32; 98; 32; 46; 46; 46])) /\
+  apply_filter n_truncatewords (as_value (VStr [97; 32; 98])) (as_value (VInt 2)) = Ok (as_value (VStr [97; 32; 98])).
+Proof. vm_compute. repeat split. Qed.
+
+(* ================================================================== *)
+(* linenumbers, wordwrap                                               *)
+
+(* the lines (any number, each newline-free) get "1. ", "2. ", ... in front and are joined by
+   newlines again *)
+Theorem C18b_linenumbers : forall (x p : value) (line : str) (lines : list str),
+  to_string (vv x) = Some (py_join [10] (line :: lines)) -> Forall (lacks 10) (line :: lines) ->
+  apply_filter n_linenumbers x p = Ok (as_value (VStr (py_join [10] (numbered (line :: lines))))).
+Proof. exact tie_linenumbers. Qed.
+Print Assumptions C18b_linenumbers.
+
+Example C18b_linenumbers_example :   (* "a\nb\n" | linenumbers = "1. a\n2. b\n3. " *)
+  apply_filter n_linenumbers (as_value (VStr [97; 10; 98; 10])) (as_value VNil)
+  = Ok (as_value (VStr [49; 46; 32; 97; 10; 50; 46; 32; 98; 10; 51; 46; 32])).
+Proof. vm_compute. reflexivity. Qed.
+Example C18b_linenumbers_instance :   (* C18b_linenumbers on the lines "a", "b", "" *)
+  apply_filter n_linenumbers (as_value (VStr [97; 10; 98; 10])) (as_value VNil)
+  = Ok (as_value (VStr (py_join [10] (numbered [[97]; [98]; []])))).
+Proof.
+  apply (C18b_linenumbers _ _ [97] [[98]; []]); [reflexivity|].
+  repeat constructor; intro H; cbn in H; intuition discriminate.
+Qed.
+
+(* wordwrap:w for w > 0 puts w words on a line (blank between words, newline between lines);
+   w <= 0 returns the input *)
+Theorem C18b_wordwrap : forall (x p : value) (rs : list N) (w : Z),
+  to_string (vv x) = Some (of_runes rs) -> Forall scalar rs -> to_integer (vv p) = Some w ->
+  ((w <= 0)%Z -> apply_filter n_wordwrap x p = Ok x) /\
+  ((0 < w)%Z -> exists lines,
+     apply_filter n_wordwrap x p = Ok (as_value (VStr (py_join [10] (map (py_join [32]) lines)))) /\
+     wrapped (Z.to_nat w) (map of_runes (ws_fields is_space_rune rs)) lines).
+Proof. exact tie_wordwrap_wf. Qed.
+Print Assumptions C18b_wordwrap.
+
+Example C18b_wordwrap_example :   (* "a b c d e" | wordwrap:2 = "a b\nc d\ne" *)
+  apply_filter n_wordwrap (as_value (VStr [97; 32; 98; 32; 99; 32; 100; 32; 101])) (as_value (VInt 2))
+  = Ok (as_value (VStr [97; 32; 98; 10; 99; 32; 100; 10; 101])).
+Proof. vm_compute. reflexivity. Qed.
+Example C18b_wrapped_example : wrapped 2 [[97]; [98]; [99]; [100]; [101]] [[[97]; [98]]; [[99]; [100]]; [[101]]].
+Proof.
+  cbn [wrapped length]. split; [reflexivity|]. exists [[99]; [100]; [101]]. split; [reflexivity|].
+  split; [reflexivity|]. exists [[101]]. split; [reflexivity|]. split; [reflexivity|]. split; constructor. constructor.
+Qed.
+
+(* ASCII text is well-formed text whose characters are its bytes, so every theorem on
+   [of_runes rs] above applies to ASCII text s with rs := s *)
+Theorem C18b_ascii_is_well_formed : forall s, is_ascii s -> Forall scalar s /\ of_runes s = s.
+Proof. exact tie_ascii_wf. Qed.
+Print Assumptions C18b_ascii_is_well_formed.
